@@ -650,7 +650,7 @@ class _SetOperation(Selectable, Term):  # type:ignore[misc]
         for set_operation, set_operation_query in self._set_operation:
             set_operation_querystring = set_operation_query.get_sql(set_ctx)
 
-            if len(self.base_query._selects) != len(set_operation_query._selects):
+            if len(self.base_query._selects) != self._select_count(set_operation_query):
                 raise SetOperationException(
                     "Queries must have an equal number of select statements in a set operation."
                     "\n\nMain Query:\n{query1}\n\nSet Operations Query:\n{query2}".format(
@@ -678,6 +678,13 @@ class _SetOperation(Selectable, Term):  # type:ignore[misc]
             return format_alias_sql(querystring, self.alias, ctx)
 
         return querystring
+
+    @staticmethod
+    def _select_count(query: "QueryBuilder" | "_SetOperation") -> int:
+        # an operand that is itself a set operation has the select list of its base query
+        while isinstance(query, _SetOperation):
+            query = query.base_query
+        return len(query._selects)
 
     def _orderby_sql(self, ctx: SqlContext) -> str:
         """
